@@ -331,6 +331,10 @@ func c15Case(c *mon.Ctx, i int) {
 		}
 		return W.Objs[W.ByKind[corpus.Cert][0]]
 	}
+	if i%20 == 19 {
+		c15Transport(c, i, rng, dir, pick)
+		return
+	}
 	switch {
 	case mode <= 6: // agreement with the library
 		sel := c15Selection(rng, dir, false)
@@ -605,6 +609,11 @@ func init() {
 			var gates []string
 			ev.Coverage["cli_shapes"] = r.SetKeys("cli_shapes")
 			ev.Coverage["undecodable_kinds"] = r.Sets["undecodable_kinds"]
+			ev.Coverage["transport_variant_outcomes"] = r.SetKeys("transport_outcomes")
+			ev.Coverage["transport_result_sets_compared"] = r.Counters["transport_result_sets_compared"]
+			if r.Counters["transport_variants_run"] < 15 {
+				gates = append(gates, "too few transport variants run")
+			}
 			ev.Coverage["invalid_selectors"] = r.Sets["invalid_selectors"]
 			ev.Coverage["result_sets_compared"] = r.Counters["result_sets_compared"]
 			ev.Coverage["summaries_compared"] = r.Counters["summaries_compared"]
@@ -659,5 +668,126 @@ func c15Once(c *mon.Ctx) {
 			}
 		}
 		c.R.Count("example_config_comparisons", 1)
+	}
+}
+
+// ---- transport variants: fail closed or agree ----
+//
+// Real inputs are not always the canonical PEM / DER / base64 text: CRLF line ends, a byte-order mark, explanatory
+// text around the armour, PEM headers, several blocks in one file, wrapped or unpadded base64, trailing bytes. The
+// documentation does not say which of these the tool decodes, so neither outcome is demanded - but the property leaves
+// only two: the tool FAILS CLOSED (non-zero exit, no result object), or it prints exactly what the library computes for
+// the certificate(s) the bytes denote, in order. A result object for anything else, or exit 0 without a result, refutes.
+func c15Transport(c *mon.Ctx, i int, rng *rand.Rand, dir string, pick func() *mon.Obj) {
+	certOnly := func() *mon.Obj {
+		for k := 0; k < 30; k++ {
+			if o := pick(); o.Kind == corpus.Cert {
+				return o
+			}
+		}
+		return W.Objs[W.ByKind[corpus.Cert][0]]
+	}
+	a, b := certOnly(), certOnly()
+	pa, pb := encodeInput(a, "pem"), encodeInput(b, "pem")
+	b64 := base64.StdEncoding.EncodeToString(a.DER)
+	wrap := func(s string, n int, nl string) string {
+		var sb strings.Builder
+		for len(s) > n {
+			sb.WriteString(s[:n] + nl)
+			s = s[n:]
+		}
+		return sb.String() + s + nl
+	}
+	type tv struct {
+		name, suffix, format string
+		data                 []byte
+		denotes              []*mon.Obj // what a tool that accepts the bytes may have read, in order (a prefix of it)
+	}
+	crlf := bytes.ReplaceAll(pa, []byte("\n"), []byte("\r\n"))
+	vars := []tv{
+		{"PEM with CRLF line ends", ".pem", "", crlf, []*mon.Obj{a}},
+		{"PEM with a byte-order mark", ".pem", "", append([]byte("\xef\xbb\xbf"), pa...), []*mon.Obj{a}},
+		{"PEM after explanatory text", ".pem", "", append([]byte("subject=/CN=example\nissuer=/CN=ca\n"), pa...), []*mon.Obj{a}},
+		{"PEM followed by text", ".pem", "", append(append([]byte{}, pa...), []byte("\ntrailing words\n")...), []*mon.Obj{a}},
+		{"PEM with headers", ".pem", "", bytes.Replace(pa, []byte("-----BEGIN CERTIFICATE-----\n"), []byte("-----BEGIN CERTIFICATE-----\nComment: exported\nX-Serial: 7\n\n"), 1), []*mon.Obj{a}},
+		{"two PEM blocks", ".pem", "", append(append([]byte{}, pa...), pb...), []*mon.Obj{a, b}},
+		{"two PEM blocks, the second one damaged", ".pem", "", append(append([]byte{}, pa...), pb[:len(pb)/2]...), []*mon.Obj{a}},
+		{"PEM without final newline", ".pem", "", bytes.TrimRight(pa, "\n"), []*mon.Obj{a}},
+		{"PEM on one base64 line", ".pem", "", []byte("-----BEGIN CERTIFICATE-----\n" + b64 + "\n-----END CERTIFICATE-----\n"), []*mon.Obj{a}},
+		{"PEM wrapped at 76 columns", ".pem", "", []byte("-----BEGIN CERTIFICATE-----\n" + wrap(b64, 76, "\n") + "-----END CERTIFICATE-----\n"), []*mon.Obj{a}},
+		{"PEM with lower-case armour", ".pem", "", bytes.ReplaceAll(pa, []byte("CERTIFICATE"), []byte("certificate")), []*mon.Obj{a}},
+		{"PEM with blank lines inside", ".pem", "", bytes.Replace(pa, []byte("\n"), []byte("\n\n"), 3), []*mon.Obj{a}},
+		{"base64 wrapped at 64 columns", ".txt", "base64", []byte(wrap(b64, 64, "\n")), []*mon.Obj{a}},
+		{"base64 wrapped with CRLF", ".txt", "base64", []byte(wrap(b64, 76, "\r\n")), []*mon.Obj{a}},
+		{"base64 with a final newline", ".txt", "base64", []byte(b64 + "\n"), []*mon.Obj{a}},
+		{"base64 without padding", ".txt", "base64", []byte(strings.TrimRight(b64, "=")), []*mon.Obj{a}},
+		{"base64 in the URL-safe alphabet", ".txt", "base64", []byte(base64.URLEncoding.EncodeToString(a.DER)), []*mon.Obj{a}},
+		{"base64 surrounded by blanks", ".txt", "base64", []byte("  " + b64 + "  \n"), []*mon.Obj{a}},
+		{"DER followed by bytes", ".der", "", append(append([]byte{}, a.DER...), 0x00, 0x01, 0x02), []*mon.Obj{a}},
+		{"DER followed by a second certificate", ".der", "", append(append([]byte{}, a.DER...), b.DER...), []*mon.Obj{a, b}},
+		{"DER in a PEM-named file", ".pem", "", a.DER, []*mon.Obj{a}},
+		{"PEM in a DER-named file", ".der", "", pa, []*mon.Obj{a}},
+	}
+	v := vars[(i/20)%len(vars)]
+	p := filepath.Join(dir, "in"+v.suffix)
+	_ = os.WriteFile(p, v.data, 0o644)
+	var args []string
+	if v.format != "" {
+		args = append(args, "-format", v.format)
+	}
+	var stdin []byte
+	if rng.Intn(3) == 0 {
+		stdin = v.data
+		if v.format == "" {
+			args = append(args, "-format", strings.TrimPrefix(v.suffix, "."))
+		}
+	} else {
+		args = append(args, p)
+	}
+	out, se, code := runCLI(stdin, dir, args...)
+	c.R.Count("evaluations", 1)
+	c.R.Count("cli_invocations", 1)
+	c.R.Count("transport_variants_run", 1)
+	files := map[string][]byte{"in" + v.suffix: v.data}
+	desc := fmt.Sprintf("%s: zlint %s", v.name, strings.Join(args, " "))
+	objs, derr := decodeObjects(out)
+	if code != 0 {
+		c.R.Distinct("transport_outcomes", v.name+" => fails closed")
+		if len(objs) > 0 && len(objs) >= len(v.denotes) {
+			c.V("result-for-undecodable|"+v.name, fmt.Sprintf("non-zero exit, yet %d result object(s) were printed for an input that denotes %d certificate(s) (%s)", len(objs), len(v.denotes), desc), "", files, nil)
+		}
+		// results printed for a PREFIX of several objects before failing on a later one are what several files would give
+		for k := range objs {
+			if k < len(v.denotes) {
+				c15SameAsLibrary(c, objs[k], v.denotes[k], desc, files)
+			}
+		}
+		return
+	}
+	c.R.Distinct("transport_outcomes", fmt.Sprintf("%s => accepted, %d object(s)", v.name, len(objs)))
+	if derr != nil || len(objs) == 0 || len(objs) > len(v.denotes) {
+		c.V("transport-output-shape|"+v.name, fmt.Sprintf("exit 0 with %d result objects (decode error %v) for an input that denotes %d certificate(s) (%s) :: %s", len(objs), derr, len(v.denotes), desc, clipS(se, 160)), "", files, nil)
+		return
+	}
+	for k := range objs {
+		c15SameAsLibrary(c, objs[k], v.denotes[k], desc, files)
+	}
+}
+
+func c15SameAsLibrary(c *mon.Ctx, got map[string]cliResult, o *mon.Obj, desc string, files map[string][]byte) {
+	want, err := selection{}.libResults(o)
+	if err != nil {
+		c.R.Count("library_side_failed", 1)
+		return
+	}
+	c.R.Count("transport_result_sets_compared", 1)
+	if len(got) != len(want) {
+		c.V("transport-differs", fmt.Sprintf("the tool printed %d results, the library computes %d for the certificate the bytes denote (%s)", len(got), len(want), desc), "", files, nil)
+		return
+	}
+	for name, w := range want {
+		if g, ok := got[name]; !ok || (g != w && !c05ClockLints[name]) {
+			c.V("transport-differs|"+name, fmt.Sprintf("%s: the tool prints %v, the library computes %v for the certificate the bytes denote (%s)", name, g, w, desc), name, files, nil)
+		}
 	}
 }
